@@ -2,9 +2,9 @@
 C01 — the state registry is a stack of typed maps with innermost-scope resolution.
 Property theorems only; helper lemmas are in `Proofs/C01.lean`.
 -/
-import MahfModel.Proofs.C01
+import MahfModel.Proofs.C01X
 namespace MahfModel.Props.C01
-open MahfModel.Registry MahfModel.Borrow
+open MahfModel.Registry MahfModel.Borrow MahfModel.RegistryX
 
 /-- Refinement, one step, for each of the 32 operation kinds (incl. every entry combinator and value access
 next to a live guard on the same type): from a
@@ -210,5 +210,200 @@ example : (ROp.entModOrIns (.ty 0) 1 2).isLocal = true ∧ (ROp.parIns 0 (.ty 0)
 
 example : Prog.holdFree (.cons (.op (.ins (.ty 0) 1)) (.cons (.inner false (.cons (.op (.gset (.ty 0) 2))
     (.cons (.inner true .nil) .nil))) .nil)) := by simp [Prog.holdFree, Stmt.holdFree]
+
+/-! ## Extended layer: the guard-returning accessors used as lookups, and writes through the `RefMut` of an
+inserting entry combinator (`Model/RegistryX.lean`) -/
+
+/-- Refinement, one step, for the extended operation kinds: the 32 base kinds plus `borrow`, `try_borrow`,
+`borrow_mut`, `try_borrow_mut`, `borrow_value`, `try_borrow_value`, `borrow_value_mut`,
+`try_borrow_value_mut` (guard taken, value read / replaced, guard dropped) and `*entry().or_insert(v) = w`,
+`*entry().or_default() = w`. -/
+theorem xstep_refines (r : Reg) (op : XOp) (h : Inv r) :
+    Inv (xstep r op).1 ∧ (xstep r op).2 = (xspecStep (abs r) op).2 ∧
+      abs (xstep r op).1 = (xspecStep (abs r) op).1 :=
+  RegistryX.xstep_refines r op h
+
+/-- … for statements (extended operations and `with_inner_state` scopes, any nesting, ok and err) from every
+registry that has its own map and no live guard … -/
+theorem xstmt_refines (s : XStmt) (r : Reg) (h : Inv r) :
+    Inv (execXStmt r s).1 ∧ (execXStmt r s).2 = (specExecXStmt (abs r) s).2 ∧
+      abs (execXStmt r s).1 = (specExecXStmt (abs r) s).1 :=
+  execXStmt_refines s r h
+
+/-- … and for every finite history of such statements from `State::new()` (what the driver replays). -/
+theorem history_refines_xstmts (p : XProg) : (execXProg new p).2 = (specExecXProg [PMap.empty] p).2 :=
+  (execXProg_refines p new inv_new).2.1
+
+/-- The guard-returning accessors resolve to the innermost scope holding the type: each of them reads, or
+replaces the value of, the cell `find` points to; a write changes that one cell and no other scope. -/
+theorem guard_accessors_innermost (r : Reg) (k : Key) (i v w : Nat) (h : Inv r) (hf : find r k = some i) :
+    ∃ c, cellAt r i k = some c ∧
+      xstep r (.bor k) = (r, .val c.val) ∧ xstep r (.tryBor k) = (r, .val c.val) ∧
+      xstep r (.bval k) = (r, .val c.val) ∧ xstep r (.tryBval k) = (r, .val c.val) ∧
+      xstep r (.borMut k v) = (writeAt r i k (fun _ => v), .val c.val) ∧
+      xstep r (.tryBorMut k v) = (writeAt r i k (fun _ => v), .val c.val) ∧
+      xstep r (.bvalMut k v) = (writeAt r i k (fun _ => v), .val c.val) ∧
+      xstep r (.tryBvalMut k v) = (writeAt r i k (fun _ => v), .val c.val) ∧
+      xstep r (.entOrInsW k v w) = (writeAt r i k (fun _ => w), .val c.val) ∧
+      xstep r (.entOrDefW k w) = (writeAt r i k (fun _ => w), .val c.val) ∧
+      cellAt (writeAt r i k (fun _ => v)) i k = some { c with val := v } ∧
+      (∀ j, j ≠ i → scopeAt (writeAt r i k (fun _ => v)) j = scopeAt r j) ∧
+      (∀ k', k' ≠ k → ∀ j, cellAt (writeAt r i k (fun _ => v)) j k' = cellAt r j k') := by
+  obtain ⟨c, hc⟩ := find_cell r k i hf
+  have hi := find_lt r k i hf
+  refine ⟨c, hc, ?_⟩
+  simp only [xstep, readGuard_found r k i c h.2 hf hc, writeGuard_found r k _ i c h.2 hf hc, Out.orPanic,
+    Out.ofRes, entry_found r k i hf, orInsertW_found r i k _ _ c h.2 hc, true_and]
+  refine ⟨cellAt_writeAt r i k _ c hi hc, ?_, ?_⟩
+  · intro j hj; simp only [writeAt]; rw [scopeAt_modifyAt r i j _ hi]; simp [hj]
+  · intro k' hk' j
+    simp only [cellAt, writeAt, scopeAt_modifyAt r i j _ hi]
+    split
+    · rename_i hj; subst hj; simp [Scope.get?_modify, hk']
+    · rfl
+
+/-- … and never invent an absent type: the read and write accessors report `NotFound` (or panic, for the
+panicking variants) and leave the registry untouched; only the inserting entry combinators create the
+type, in the top scope. -/
+theorem guard_accessors_absent (r : Reg) (k : Key) (v w : Nat) (hf : find r k = none) :
+    xstep r (.bor k) = (r, .panic) ∧ xstep r (.tryBor k) = (r, .err .notFound) ∧
+    xstep r (.bval k) = (r, .panic) ∧ xstep r (.tryBval k) = (r, .err .notFound) ∧
+    xstep r (.borMut k v) = (r, .panic) ∧ xstep r (.tryBorMut k v) = (r, .err .notFound) ∧
+    xstep r (.bvalMut k v) = (r, .panic) ∧ xstep r (.tryBvalMut k v) = (r, .err .notFound) ∧
+    xstep r (.entOrInsW k v w) = (modifyAt r 0 (·.put k (fresh w)), .val v) ∧
+    xstep r (.entOrDefW k w) = (modifyAt r 0 (·.put k (fresh w)), .val 0) := by
+  simp [xstep, readGuard_absent r k hf, writeGuard_absent r k _ hf, Out.orPanic, Out.ofRes,
+    entry_absent r k hf, orInsertW_absent]
+
+example : find [[(.ty 1, fresh 2)], [(.ty 0, fresh 1)]] (.ty 0) = some 1 ∧
+    (xstep [[(.ty 1, fresh 2)], [(.ty 0, fresh 1)]] (.bvalMut (.ty 0) 7)).1
+      = [[(.ty 1, fresh 2)], [(.ty 0, fresh 7)]] := by decide
+
+/-- The operation kinds `lookup_innermost` does not list resolve to the innermost holder as well. -/
+theorem lookup_innermost_rest (r : Reg) (k : Key) (i v d : Nat) (h : Inv r) (hf : find r k = some i) :
+    ∃ c, cellAt r i k = some c ∧
+      step r (.take k) = (modifyAt r i (·.erase k), .val c.val) ∧
+      step r (.has k) = (r, .bool true) ∧ step r (.hasTop k) = (r, .bool (decide (i = 0))) ∧
+      step r (.findMut k) = (r, .depth i) ∧ step r (.req k) = (r, .ok) ∧
+      step r (.entOrWith k v) = (r, .val c.val) ∧ step r (.entOrDef k) = (r, .val c.val) ∧
+      step r (.entMod k d) = (writeAt r i k (· + d), .bool true) ∧
+      step r (.entModV k d) = (writeAt r i k (· + d), .bool true) ∧
+      step r (.entModOrIns k d v) = (writeAt r i k (· + d), .val (c.val + d)) ∧
+      step r (.occGetMut k v) = (writeAt r i k (fun _ => v), .val c.val) ∧
+      step r (.occIntoMut k v) = (writeAt r i k (fun _ => v), .val c.val) ∧
+      step r (.vacIns k v) = (r, .occupied) := by
+  obtain ⟨c, hc⟩ := find_cell r k i hf
+  have hi := find_lt r k i hf
+  have hq' := quiet_writeAt r i k (· + d) h.2
+  have hc' := cellAt_writeAt r i k (· + d) c hi hc
+  have htop : containsAtTop r k = decide (i = 0) := by
+    cases i with
+    | zero => simpa [containsAtTop] using find_has r k 0 hf
+    | succ j => simpa [containsAtTop] using find_first r k (j + 1) 0 hf (by omega)
+  refine ⟨c, hc, ?_⟩
+  simp [step, hf, Out.orPanic, remove, hc, contains, htop, entry_found r k i hf,
+    orInsert_found r i k _ c h.2 hc, andModify_found r i k d c h.2 hc, orInsert_found _ i k _ _ hq' hc',
+    occWrite_quiet r i k _ c h.2 hc]
+
+/-- A multi-borrow that names an absent type fails as a whole: nothing is written through the references
+obtained for the members that do exist (error for the `try_` accessor, panic for the panicking one). -/
+theorem multi_absent_no_partial_write (r : Reg) (ks : List Key) (d : Nat) (k : Key) (hk : k ∈ ks)
+    (hf : find r k = none) :
+    (step r (.multi ks d)).1 = r ∧
+    ((step r (.multi ks d)).2 = .err .notFound ∨ (step r (.multi ks d)).2 = .err .multi) ∧
+    step r (.multiP ks d) = (r, .panic) := by
+  have hall : ¬ ∀ k ∈ ks, (find r k).isSome = true := fun h' => by simpa [hf] using h' k hk
+  cases hd : distinct ks <;> simp [step, tryGetMultipleMut, hd, getAllMut_err r ks hall]
+
+example : find [[(.ty 0, fresh 1)]] (.ty 1) = none ∧ (Key.ty 1) ∈ [Key.ty 0, .ty 1] := by decide
+
+/-- "Popping a scope yields exactly the entries inserted into it", insert direction: whatever else the block
+between `into_child` and `into_parent` does (no raw push/pop), a type whose last mention in the block is
+`insert(v)` is in the popped map with exactly that value. -/
+theorem pop_yields_last_insert (r : Reg) (pre post : List ROp) (q : Key) (v : Nat) (h : Inv r)
+    (hpre : ∀ o ∈ pre, o.flat = true) (hpost : ∀ o ∈ post, o.flat = true) (hq : ∀ o ∈ post, q ∉ o.keys) :
+    ∃ s p, (run (intoChild r) (pre ++ .ins q v :: post)).1 = s :: p ∧ p.length = r.length ∧
+      s.view q = some v ∧ step (s :: p) .pop = (p, .popped s.view) := by
+  have hc : Inv (intoChild r) := ⟨by simp [intoChild], by simp [intoChild, quiet_cons, h.2, Scope.quiet]⟩
+  have h1 := run_inv (intoChild r) pre hc
+  have hl1 := run_length (intoChild r) pre hc hpre
+  rw [run_append_fst]
+  generalize (run (intoChild r) pre).1 = r1 at *
+  cases r1 with
+  | nil => exact absurd rfl h1.1
+  | cons s1 p1 =>
+    have h2 : Inv (s1.put q (fresh v) :: p1) := by
+      have := (Registry.step_refines (s1 :: p1) (.ins q v) h1).1
+      simpa [step, Registry.insert] using this
+    have hfr := run_frame (s1.put q (fresh v) :: p1) post q h2 hpost hq
+    have hl2 := run_length (s1.put q (fresh v) :: p1) post h2 hpost
+    have hrun : (run (s1 :: p1) (.ins q v :: post)).1 = (run (s1.put q (fresh v) :: p1) post).1 := by
+      simp [run, step, Registry.insert]
+    rw [hrun]
+    generalize (run (s1.put q (fresh v) :: p1) post).1 = X at *
+    cases X with
+    | nil => simp at hl2
+    | cons s p =>
+      have hp : p.length = r.length := by
+        simp only [List.length_cons, intoChild] at hl1 hl2; omega
+      refine ⟨s, p, rfl, hp, ?_, ?_⟩
+      · simp only [vcol_cons] at hfr
+        have := (List.cons.inj hfr).1
+        simpa [Scope.view, Scope.get?_put] using this
+      · cases p with
+        | nil => exact absurd hp.symm (by simpa using h.1)
+        | cons s' p' => simp [step, intoParent]
+
+/-- … removal direction: an entry of the new scope that the block removes (and does not mention again) is
+not in the popped map, and removing it did not touch what the parents hold for that type. -/
+theorem pop_forgets_removed (r : Reg) (pre post : List ROp) (q : Key) (h : Inv r)
+    (hpre : ∀ o ∈ pre, o.flat = true) (hpost : ∀ o ∈ post, o.flat = true) (hq : ∀ o ∈ post, q ∉ o.keys)
+    (htop : containsAtTop (run (intoChild r) pre).1 q = true) :
+    ∃ s p, (run (intoChild r) (pre ++ .rem q :: post)).1 = s :: p ∧ p.length = r.length ∧
+      s.view q = none ∧ vcol p q = (vcol (run (intoChild r) pre).1 q).tail ∧
+      step (s :: p) .pop = (p, .popped s.view) := by
+  have hc : Inv (intoChild r) := ⟨by simp [intoChild], by simp [intoChild, quiet_cons, h.2, Scope.quiet]⟩
+  have h1 := run_inv (intoChild r) pre hc
+  have hl1 := run_length (intoChild r) pre hc hpre
+  rw [run_append_fst]
+  generalize (run (intoChild r) pre).1 = r1 at *
+  cases r1 with
+  | nil => exact absurd rfl h1.1
+  | cons s1 p1 =>
+    have hf : find (s1 :: p1) q = some 0 := by
+      simp only [containsAtTop, scopeAt_zero] at htop
+      simp [find_cons, htop]
+    obtain ⟨c, hcell⟩ := find_cell (s1 :: p1) q 0 hf
+    have hst : (step (s1 :: p1) (.rem q)).1 = s1.erase q :: p1 := by
+      simp [step, remove, hf, hcell, modifyAt]
+    have h2 : Inv (s1.erase q :: p1) := by
+      have := (Registry.step_refines (s1 :: p1) (.rem q) h1).1
+      rwa [hst] at this
+    have hfr := run_frame (s1.erase q :: p1) post q h2 hpost hq
+    have hl2 := run_length (s1.erase q :: p1) post h2 hpost
+    have hrun : (run (s1 :: p1) (.rem q :: post)).1 = (run (s1.erase q :: p1) post).1 := by
+      simp only [run, hst]
+    rw [hrun]
+    generalize (run (s1.erase q :: p1) post).1 = X at *
+    cases X with
+    | nil => simp at hl2
+    | cons s p =>
+      have hp : p.length = r.length := by
+        simp only [List.length_cons, intoChild] at hl1 hl2; omega
+      simp only [vcol_cons] at hfr
+      have hh := List.cons.inj hfr
+      refine ⟨s, p, rfl, hp, ?_, ?_, ?_⟩
+      · simpa [Scope.view, Scope.get?_erase] using hh.1
+      · simpa [vcol_cons] using hh.2
+      · cases p with
+        | nil => exact absurd hp.symm (by simpa using h.1)
+        | cons s' p' => simp [step, intoParent]
+
+example : containsAtTop (run (intoChild [[(.ty 0, fresh 1)]]) [.ins (.ty 0) 2, .set (.ty 0) 5]).1 (.ty 0) = true ∧
+    (∀ o ∈ [ROp.ins (.ty 1) 3, .tryGet (.ty 1)], (Key.ty 0) ∉ o.keys) := by
+  refine ⟨by decide, ?_⟩
+  simp [ROp.keys]
+
+example : Inv [[(.ty 0, fresh 1)]] := ⟨by simp, by decide⟩
 
 end MahfModel.Props.C01
